@@ -96,7 +96,7 @@ class Log:
         self.rewrites.append({'rule': rule, 'where': where, 'before': before.strip()[:160], 'after': after.strip()[:160]})
 
 
-def generic_attr_edits(sf, lo, hi, ed, log, where):
+def generic_attr_edits(sf, lo, hi, ed, log, where, drop_derives=()):
     """D1: drop/trim attributes in token range [lo,hi)."""
     toks = sf.toks
     i = lo
@@ -115,7 +115,7 @@ def generic_attr_edits(sf, lo, hi, ed, log, where):
             if name == 'derive':
                 names = [toks[k].text for k in range(i + 4, e - 1) if toks[k].kind == 'ident']
                 # handle paths like serde::Serialize: keep only last segments that are in KEEP
-                keep = [n for n in names if n in KEEP_DERIVES]
+                keep = [n for n in names if n in KEEP_DERIVES and n not in drop_derives]
                 rep = ('#[derive(%s)]' % ', '.join(keep)) if keep else ''
                 if rep != sf.text[s_char:e_char]:
                     ed.add(s_char, e_char, rep)
